@@ -264,6 +264,8 @@ class ParallelModels:
             if isinstance(cls, SV) and cls.ty == TExcClasses:
                 return SV(inst_of(v.term, cls.term), TBool)
             raise Unsupported(f"isinstance of a task result against {cls!r}")
+        if v is None and isinstance(cls, SV) and cls.ty == TExcClasses:
+            return False  # isinstance(None, <exception classes>)
         return NotImplemented
 
     def raise_value(self, ex, v, lineno):
